@@ -98,6 +98,9 @@ func (e *Engine) intrinsicFor(fn *ssa.Function) intrinsic {
 			in = func(m *Machine, caller *frame, args []Value) Value { return nil }
 		}
 	}
+	if in == nil && fn.Pkg != nil && fn.Signature.Recv() == nil && fn.Parent() == nil {
+		in = e.pureIntrinsic(name)
+	}
 	if in == nil {
 		e.intrCache.Store(fn, noIntr{})
 		return nil
@@ -172,6 +175,7 @@ type Machine struct {
 	httpSt       *httpState
 	stdioMark    int
 	fileInfos    map[*Opaque]*fsEntry
+	atomClass    map[*Term]*charClass // character classes of atoms (harness assumption verifAssumeWord)
 }
 
 func (m *Machine) addPC(t *Term) {
